@@ -145,6 +145,7 @@ class Builder:
             except expand.ExpandError as e:
                 raise LostAnchor(str(e))
             self.add_source(alias, pth)
+            self._expanded_crate_dir = cdir
             self.report.setdefault("expanded_sources", []).append(
                 {"alias": alias, "crate": crate, "module": module, "struct": struct, "piece": os.path.basename(pth),
                  "how": "cargo +nightly rustc -p %s --lib -- -Zunpretty=expanded on the working tree, this run" % crate})
@@ -254,6 +255,26 @@ class Builder:
                     self.emit("\n", "unit")
                 continue
             found = [f for f in rs.find_items(src, m, (0, len(src)), "fn " + extra) if not self._in_cfg_test(src, m, f)]
+            if not found and "/build/expanded/" in rel and getattr(self, "_expanded_crate_dir", None):
+                # code that only exists as a macro expansion may call a helper that lives in another file of the crate
+                # (e.g. a new `skip_serializing_if` predicate): look the name up in the crate's sources
+                hits = []
+                for root, _, files in sorted(os.walk(os.path.join(self.repo, self._expanded_crate_dir, "src"))):
+                    for fn_ in sorted(files):
+                        if fn_.endswith(".rs"):
+                            pth = os.path.join(root, fn_)
+                            s2 = open(pth).read()
+                            m2 = rs.mask(s2)
+                            for f in rs.find_items(s2, m2, (0, len(s2)), "fn " + extra, deep=True):
+                                if not self._in_cfg_test(s2, m2, f):
+                                    hits.append((os.path.relpath(pth, self.repo), s2, m2, f))
+                if len(hits) == 1:
+                    rel2, s2, m2, f = hits[0]
+                    self._auto_done.add((rel, extra))
+                    self.report.setdefault("auto_extracted_callees", []).append("%s::%s (new callee of macro-expanded code, found in the crate; signature only, no contract)" % (rel2, extra))
+                    self.emit_fn(rel2, s2, m2, f, [extra], {"external": [], "drop": [], "only": None, "external_body": [extra], "rules": o.get("rules", [])})
+                    self.emit("\n", "unit")
+                continue
             if len(found) == 1:
                 self._auto_done.add((rel, extra))
                 self.report.setdefault("auto_extracted_callees", []).append("%s::%s (new callee without a contract: signature only, callers learn nothing about its result)" % (rel, extra))
